@@ -40,6 +40,13 @@ def obligations(ctx, tier):
                     out += core.g_row(K, PROP, inh(A, name), arith.reps(A, "Ts", shift_expect(A, d, form, cls, K.debug)))
                 out += core.g_row(K, PROP, tr(A, OPS + d.capitalize(), ["u32"], d),
                                   arith.reps(A, "Ts", shift_expect(A, d, "plain", cls, K.debug)))
+            # ---- the operator with every primitive amount type: in-range amounts shift by exactly that amount in both
+            #      build modes; out-of-range / negative amounts panic with debug assertions
+            for d in ("shl", "shr"):
+                for R in PRIM_INTS:
+                    if R == "u32":
+                        continue
+                    out += core.g_row(K, PROP, tr(A, OPS + d.capitalize(), [R], d), prim_amount_reps(A, R, d, "overflow(%s)" % d, K.debug))
             for d in ("shl", "shr"):
                 def un(W, env, d=d, A=A):
                     a, s_ = env[0].v, env[1].v
@@ -50,6 +57,31 @@ def obligations(ctx, tier):
                 out += core.g_row(K, PROP, inh(A, "unchecked_" + d), arith.reps(A, "Ts", un))
             for d in ("rotate_left", "rotate_right"):
                 out += core.g_row(K, PROP, inh(A, d), arith.reps(A, "Ts", rot_expect(A, d)))
+    return out
+
+
+RBITS = {"u8": 8, "u16": 16, "u32": 32, "u64": 64, "u128": 128, "usize": 64, "i8": 8, "i16": 16, "i32": 32, "i64": 64, "i128": 128, "isize": 64}
+AMOUNT_CANDS = [0, 1, 7, 31, 33, 63, 64, 65, 100, 127, 128, 191, 192, 255, 256, 1000, 65535, 1 << 31, (1 << 32) - 1, 1 << 32, 1 << 40,
+                (1 << 63) - 1, -1, -7, -128]
+
+
+def prim_amount_reps(A, R, d, cls, debug):
+    b = RBITS[R]
+    lo, hi = (-(1 << (b - 1)), (1 << (b - 1)) - 1) if R[0] == "i" else (0, (1 << b) - 1)
+    amts = [s_ for s_ in AMOUNT_CANDS if lo <= s_ <= hi]
+    vals = [(n, f) for n, f in arith._values(A) if n in ("1", "5", "MAX", "MIN", "n1", "half", "top")]
+
+    def exp(W, env):
+        a, s_ = env[0].v, env[1].v
+        w = W.bits(A)
+        if 0 <= s_ < w:
+            return ("val", W.wrap(A, (pat(W, A, a) << s_) if d == "shl" else (a >> s_)))
+        return ("panic", cls) if debug else ("normal",)
+    out = []
+    for n, f in vals:
+        for s_ in amts:
+            out.append(("%s_%s" % (n, str(s_).replace("-", "n")),
+                        (lambda f=f, s_=s_: lambda W: {0: W.wrap(A, f(W)), 1: PI(R, s_)})(), exp))
     return out
 
 
